@@ -397,6 +397,57 @@ type Script struct {
 	names     map[string]bool
 	ctr       int
 	pcParents map[string][]string
+	// index for cone-of-influence pruning (built lazily)
+	mu          sync.Mutex
+	indexed     int
+	lineKind    []byte // 'a' assert, 'd' declaration/definition, 'o' other (always kept)
+	lineName    []string
+	lineSyms    [][]string
+	defLine     map[string]int
+	assertLines []int
+}
+
+var symRe = regexp.MustCompile(`[^\s()]+`)
+var defRe = regexp.MustCompile(`^\((declare-const|declare-fun|define-fun) (\S+)`)
+
+// index classifies the first n lines and records which defined symbols each one mentions.
+func (s *Script) index(n int) {
+	if n <= s.indexed {
+		return
+	}
+	if s.defLine == nil {
+		s.defLine = map[string]int{}
+	}
+	// first pass: names
+	for i := s.indexed; i < n; i++ {
+		l := s.lines[i]
+		kind, name := byte('o'), ""
+		if m := defRe.FindStringSubmatch(l); m != nil {
+			kind, name = 'd', m[2]
+			s.defLine[name] = i
+		} else if strings.HasPrefix(l, "(assert ") {
+			kind = 'a'
+			s.assertLines = append(s.assertLines, i)
+		}
+		s.lineKind = append(s.lineKind, kind)
+		s.lineName = append(s.lineName, name)
+		s.lineSyms = append(s.lineSyms, nil)
+	}
+	for i := s.indexed; i < n; i++ {
+		seen := map[string]bool{}
+		var syms []string
+		for _, tok := range symRe.FindAllString(s.lines[i], -1) {
+			if tok == s.lineName[i] || seen[tok] {
+				continue
+			}
+			if _, ok := s.defLine[tok]; ok {
+				seen[tok] = true
+				syms = append(syms, tok)
+			}
+		}
+		s.lineSyms[i] = syms
+	}
+	s.indexed = n
 }
 
 func NewScript() *Script { return &Script{names: map[string]bool{}, pcParents: map[string][]string{}} }
